@@ -7,15 +7,16 @@ CONSTANTS
  MaxAgain = 1
  RetryLimit = 3
  Schemes = {"reg", "ocidir"}
- Vias = {"tarraw", "tarwalk"}
+ Vias = {"tarwalk", "tariter"}
  Withs = {TRUE}
  Chunks = {1, 5}
- LyingSizes = FALSE
+ LyingSizes = TRUE
  InlineData = FALSE
  Conc = 3
  Probes = FALSE
  Exts = {FALSE}
  KeepSlots = FALSE
+ TarUnverified = FALSE
 INIT Init
 NEXT Next
 VIEW View
